@@ -6,7 +6,7 @@ import CashewsVerif.Model.Ttl
 Driver for C02: the simple-cache model, the iterator model and the TTL model behind one line protocol.
 
   simple <cond> <ttl>      start a simple-cache case            -> ok
-  script <beh>*            behaviour of execution 0,1,…         -> ok      beh  = (v|n|f<j>|e<c>|e<c>p<payload>)[:<dur>]   (beyond the list: v:0)
+  script <beh>*            behaviour of execution 0,1,…         -> ok      beh  = (v|n|f<j>|e<c>|e<c>p<payload>|y<c>|y<c>p<payload>)[:<dur>]   (beyond the list: v:0)
   iter <cond> <ttl>        start an iterator case               -> ok
   runs <run>*              body of run 0,1,…                    -> ok      run  = <step>,<step>,…/<findur>  (steps `-` = none); step = beh
   adv <dt>                 time passes                          -> ok
@@ -60,7 +60,7 @@ def parseSpelling? (s : String) : Option Ttl.Spelling :=
   else (parsePlain? s).map .plain
 
 def resIdx : Res → Nat
-  | .val _ _ => 0 | .none => 1 | .falsy _ => 2 | .exc _ _ _ => 3 | .junk => 0
+  | .val _ _ => 0 | .none => 1 | .falsy _ => 2 | .exc _ _ _ => 3 | .eobj _ _ _ => 3 | .junk => 0
 
 def parseClasses? (s : String) : Option (List Nat) :=
   if s = "" then some [] else allSome ((s.splitOn "+").map String.toNat?)
@@ -71,7 +71,7 @@ def parseCondRes? : Char → Option CondRes
   | _ => none
 
 def kindIdx : Kind → Nat
-  | .val => 0 | .none => 1 | .falsy _ => 2 | .exc c _ => 3 + c
+  | .val => 0 | .none => 1 | .falsy _ => 2 | .exc c _ => 3 + c | .eobj c _ => 3 + c   -- a callable sees an instance of class c
 
 def parseCnd1? (s : String) : Option Decor.Cond :=
   if s = "all" then some .all
@@ -100,6 +100,11 @@ def parseKind? (s : String) : Option Kind :=
   | ['v'] => some .val
   | ['n'] => some .none
   | 'f' :: r => (String.ofList r).toNat?.map .falsy
+  | 'y' :: r =>                    -- y<class>[p<payload>]: an exception instance returned / yielded as a value
+    match (String.ofList r).splitOn "p" with
+    | [c] => c.toNat?.map (.eobj · 0)
+    | [c, p] => do pure (.eobj (← c.toNat?) (← p.toNat?))
+    | _ => none
   | 'e' :: r =>                    -- e<class> (payload 0: a plain class) | e<class>p<payload>
     match (String.ofList r).splitOn "p" with
     | [c] => c.toNat?.map (.exc · 0)
@@ -129,6 +134,8 @@ def showRes : Res → String
   | .falsy j => s!"f{j}"
   | .exc c 0 n => s!"x{c}.{n}"
   | .exc c p n => s!"x{c}p{p}.{n}"
+  | .eobj c 0 n => s!"y{c}.{n}"
+  | .eobj c p n => s!"y{c}p{p}.{n}"
   | .junk => "junk"
 
 def parseConsumer? : List String → Option Iter.Consumer
